@@ -119,7 +119,8 @@ def make_queries(region, q):
     elif kind == 'boundary':
         x, y = boundary_pts(n)
     elif kind == 'far':
-        x, y = cx + nrng.uniform(-1, 1, n) * 1e3 * L, cy + nrng.uniform(-1, 1, n) * 1e3 * L
+        reach = max(1e3 * L, 2e5)            # also far in absolute terms (integer overflow of squared offsets starts at 46341 px)
+        x, y = cx + nrng.uniform(-1, 1, n) * reach, cy + nrng.uniform(-1, 1, n) * reach
     elif kind == 'lattice':
         x = np.round(cx + nrng.uniform(-1.3, 1.3, n) * L * 2) / 2
         y = np.round(cy + nrng.uniform(-1.3, 1.3, n) * L * 2) / 2
